@@ -483,6 +483,42 @@ func runFDFailBranch(c *core.Ctx) {
 				noTimeout = true
 			}
 		}
+		if !noTimeout {
+			// no flag: the timeout arm of the select (a receive from time.After) leaves the iteration itself - the store
+			// is not reachable from inside that arm before the next poll
+			ast.Inspect(fn.Body(), func(m ast.Node) bool {
+				cc, ok := m.(*ast.CommClause)
+				if !ok || cc.Comm == nil {
+					return true
+				}
+				isTimer := false
+				ast.Inspect(cc.Comm, func(k ast.Node) bool {
+					if call, ok := k.(*ast.CallExpr); ok {
+						if f := an.CalleeFunc(info, call); f != nil && f.Pkg() != nil && f.Pkg().Path() == "time" && f.Name() == "After" {
+							isTimer = true
+						}
+					}
+					return true
+				})
+				if !isTimer || len(cc.Body) == 0 || (s.Pos() >= cc.Pos() && s.End() <= cc.End()) {
+					return true
+				}
+				var first ast.Node
+				g.AllAtoms(func(a ast.Node) {
+					if a.Pos() >= cc.Colon && a.End() <= cc.End() && (first == nil || a.Pos() < first.Pos()) {
+						first = a
+					}
+				})
+				if first == nil {
+					return true
+				}
+				p := g.Search(an.Query{From: first, Target: func(a ast.Node) bool { return a == s }, Avoid: func(a ast.Node) bool { return a == dial[0] }})
+				if !p.Found {
+					noTimeout = true
+				}
+				return true
+			})
+		}
 		c.Check(noErr && noTimeout, key, s.Pos(), "a reply is stored only when the RPC neither failed nor timed out",
 			"a (possibly zero-valued / stale) reply is stored although the RPC failed or timed out: the detector can report a crashed or unreachable archetype as alive, or fall back to uninitialized")
 	}
